@@ -376,7 +376,10 @@ fn gen_item(d: &mut Dice, attr: Option<(&str, &dyn Fn(&mut Dice, usize) -> Optio
         }
         1 => {
             let nv = d.range(0, 3);
-            let vnames = ["A", "B", "r#Type", "FooBar"];
+            // (one multi-word name in several casings: across items of one process the same word re-cased differently
+            // must not influence each other — C19 expands these items after one another)
+            let vnames = ["A", "B", "r#Type", ["FooBar", "Foobar", "FOOBAR", "fooBar", "Foo_Bar"][d.weighted(&[5, 2, 1, 1, 1])]];
+            let voff = d.pick(4);
             let odd_variants = ["_A", "A1_b", "İx", "Ünï", "__", "XMLHttp", "a", "ǅx"];
             let odd = d.chance(12);
             if odd && nv > 0 {
@@ -388,7 +391,7 @@ fn gen_item(d: &mut Dice, attr: Option<(&str, &dyn Fn(&mut Dice, usize) -> Optio
                     let a = at2(d, 1);
                     let f = fields(d, &at);
                     let disc = if d.chance(15) { [" = 1", " = -3", " = 1 << 2"][d.pick(3)] } else { "" };
-                    format!("{a}{}{f}{disc}", if odd { odd_variants[(off + i) % 8] } else { vnames[i % 4] })
+                    format!("{a}{}{f}{disc}", if odd { odd_variants[(off + i) % 8] } else { vnames[(voff + i) % 4] })
                 })
                 .collect();
             format!("{cont}{cont2}{repr}enum {}{generics}{wh} {{ {} }}", if sname == "S" { "E" } else { sname }, vs.join(", "))
